@@ -49,7 +49,7 @@ def main():
         },
         "engines": [],
         "checks": [],
-        "notes": "All checks: ./check Cxx --tier quick|thorough (cwd /verif). Honour VERIF_SEED, VERIF_TIER, VERIF_REPO (default /repo). Exit 0 held / 1 VIOLATION / 2 undecided. See DESIGN.md (section 11 = what was built, findings, seeded-change matrix). Known findings: /verif/known-findings.json (status known = reported as KNOWN-FINDING, status fixed = repaired by a fix: commit in /repo, suppresses nothing). Auxiliary checks beyond the listed properties (same scheme, not entries of this manifest): ./check ABCI, GOSSIP, PRIVVAL, PEX, SWITCH, HEIGHTS (DESIGN 11.5). Seeded changes used to test the checks: /verif/seeded/<id>/ (120, six rounds; meta.json says which check reports each).",
+        "notes": "All checks: ./check Cxx --tier quick|thorough (cwd /verif). Honour VERIF_SEED, VERIF_TIER, VERIF_REPO (default /repo). Exit 0 held / 1 VIOLATION / 2 undecided. See DESIGN.md (section 11 = what was built, findings, seeded-change matrix). Known findings: /verif/known-findings.json (status known = reported as KNOWN-FINDING, status fixed = repaired by a fix: commit in /repo, suppresses nothing). Auxiliary checks beyond the listed properties (same scheme, not entries of this manifest): ./check ABCI, GOSSIP, PRIVVAL, PEX, SWITCH, HEIGHTS (DESIGN 11.5). Seeded changes used to test the checks: /verif/seeded/<id>/ (130, seven rounds; meta.json says which check reports each).",
         "not_applicable": [],
     }
     load_fragments()
